@@ -401,7 +401,9 @@ func algebra(w *tr.W, np int, dirs []string) {
 									"eq 0 1", "sub 0 1", "sup 0 1", "eq 1 2", "sub 2 0", "sup 2 1",
 									// results are independent objects: mutate them, then the operands
 									"add 3 5", "rem 3 0", "add 4 6", "add 5 1", "snap",
-									"add 0 7", "rem 1 0 1", "add 2 8", "snap", "alias")
+									"add 0 7", "rem 1 0 1", "add 2 8", "snap", "alias",
+									// three distinct operands, other receivers
+									"uni 0 1 2 3", "dif 3 1 2 0", "int 3 0 3 3", "uni 1 2 0", "dif 2 0 1", "int 2 1 0", "snap", "alias")
 								runCase(w, "det "+dir, ops)
 							}
 						}
